@@ -1,6 +1,6 @@
 """C17 -- grid names normalise to one valid (algorithm, N) or are rejected with ValueError.
 
-Shape B over the token language: EVERY name t1_..._tm (m <= 3 quick / 4 thorough) over the token alphabet, both roles.
+Shape B over the token language: EVERY name t1_..._tm (m <= 4) over the token alphabet plus m = 5 (6) over a reduced one, both roles.
 Only constraints stated by the property are checked (never a predicted verdict where the statement allows both).
 """
 from __future__ import annotations
@@ -106,10 +106,15 @@ def construct_case(case):
 
 def run(ctx):
     rep = Report(PROPERTY, "exploration")
-    mmax = 4 if ctx.thorough else 3
+    mmax = 4
     names = []
     for m in range(1, mmax + 1):
         for toks in itertools.product(TOKENS, repeat=m):
+            names.append("_".join(toks))
+    # five and six tokens over a reduced alphabet (a name is scanned token by token: late tokens count like early ones)
+    SMALL = ["ico", "cube4D", "zero3D", "zero", "7", "12", "foo", "None"] if ctx.thorough else ["ico", "cube4D", "12", "foo"]
+    for m in ((5, 6) if ctx.thorough else (5,)):
+        for toks in itertools.product(SMALL, repeat=m):
             names.append("_".join(toks))
     chunks = [{"names": names[i:i + 2000]} for i in range(0, len(names), 2000)]
     res = ctx.pmap(chunk_case, chunks, chunksize=1, recheck=2)
@@ -131,7 +136,8 @@ def run(ctx):
                 "checked on every (name, role); every distinct standard name produced is constructed; "
                 "distinct_nontrivial = distinct (role, standard name) produced",
         "samples": collect_samples(names, 6) + [c["std"] for c in cc[:4]],
-        "accepted": acc, "rejected_with_ValueError": rej, "exhaustive": True, "bound": {"max_tokens": mmax},
+        "accepted": acc, "rejected_with_ValueError": rej, "exhaustive": True,
+        "bound": {"max_tokens": mmax, "reduced_alphabet": {"tokens": SMALL, "lengths": [5, 6] if ctx.thorough else [5]}},
     }
     rep.assumptions = ["tokens of the shape <digit>d (dimension tags) are excluded: left unspecified by the statement"]
     return rep
